@@ -295,7 +295,7 @@ PROPS["C08"] = dict(
     technique="Lean 4 invariant proofs over all event histories of the receiver model (using the C09 gap theorems) + differential correspondence",
     level_text=("Kernel-checked: for a file of N bytes (data PDUs inside the file, EOFs announcing at most N; otherwise any PDUs, any order, duplicates, losses, prompts, "
                 "timer expirations, suspend/resume, faults) every NAK the receiver model transmits has only requests that are the 0-0 marker or non-empty ranges, each inside "
-                "the announced scope and ending at or below N, and a data field of at most segment size + 1 octets (C08_wellformed; invariant NQ: well-formed segment list, "
+                "the announced scope and ending at or below N, and - unless it carries a single request - a data field of at most segment size + 1 octets (C08_wellformed; invariant NQ: well-formed segment list, "
                 "queue and delayed windows below N); once the EOF is in hand the list from which the queue is rebuilt (after EOF, on every NAK-timer expiry, on Prompt(NAK), "
                 "on resume) is the marker iff the metadata is missing followed by ranges covering precisely the bytes of [0, size) not held - none left out, first segment "
                 "included, none already held (C08_exact via C09 gaps_exact; C08_queue_after_eof / _delayed say when the queue takes that value); under the deferred "
@@ -307,7 +307,7 @@ PROPS["C08"] = dict(
           "segment sizes 16..64 so that NAK lists split over several PDUs; re-segmented overlapping data) + seg engine as in C09. Oracles wf_scope, wf_empty_range, "
           "wf_beyond_file, wf_size, wf_meta_marker, deferred_quiet, exact_after_eof. Non-trivial = a PDU was emitted or an indication raised."),
     assumptions=["C08_wellformed 'inside the file': the sender's data PDUs lie inside the file and its EOF announces the file's size (hypothesis EvOk)",
-                 "segment size at least 2 x the width of a file-size field (otherwise max_nak_num underflows; the model marks that as a panic)"],
+                 "a NAK PDU always carries at least one request, so with a segment size below 1 + 4 x file-size width a single-request NAK exceeds it (finding F34)"],
     unproved=["the 0-0 marker is queued only while the metadata is missing (it can stay in the queue after the metadata arrived; harness oracle wf_meta_marker checks its creation)"],
 )
 
@@ -432,4 +432,29 @@ PROPS["C01"] = dict(
           "Oracles delivered_equals_source, complete_without_data. Non-trivial = a PDU was emitted or an indication raised."),
     assumptions=["the PDUs delivered belong to a transfer of one fixed file src (hypothesis TruthfulEv); what a link may do to them is unrestricted"],
     unproved=["two-party statement (sender model composed with receiver model over a lossy link): the sender's PDUs are truthful by C07, the composition itself is exercised by the daemon engine"],
+)
+
+PROPS["C03"] = dict(
+    title="Every transaction ends in bounded time, whatever the peer and the link do",
+    module="Cfdp.Props.C03",
+    namespace="Cfdp.Loop",
+    theorems=["C03_recv_never_stuck", "Cfdp.Recv.C03_recv_inactivity_limit"],
+    engines=["recv", "send"],
+    design="§6 C03",
+    technique="Lean 4 invariant proof over all event histories of the receiver model (a timer is always running) + limit-to-termination step theorems; bounded termination of the real state machines checked by a drain phase on the virtual clock",
+    level_text=("Kernel-checked for the receiver: after every history of loop events a receive transaction that is neither terminated nor suspended has its inactivity timer "
+                "running, so the sleep the task loop computes is finite and handle_timeout runs again whatever the peer and the link do, including nothing at all for good "
+                "(C03_recv_never_stuck: invariant Act, ~25 preservation lemmas); when the inactivity limit is reached a cancelled transaction is abandoned = Terminated, any "
+                "other one is cancelled (default handler) or abandoned at once (C03_recv_inactivity_limit) - with C10_recv_cancel_ends / C10_send_cancel_ends (the positive-ACK "
+                "limit ends a cancelled transaction) and C17 (limits are reached after max x timeout) this bounds the lifetime under the default handlers. "
+                "Checked on the real code only (not a theorem): the engines end every history with a drain phase - the peer silent for good from a random point of the "
+                "exchange on - that plays the task loop on the virtual clock (send while has_pdu_to_send, else sleep until_timeout and handle_timeout) and require Terminated "
+                "within 4 x (limit+1) x (sum of timeouts), never an infinite sleep (never_stuck) and never more than 5000 iterations (spinning). This drain found F33 and F34."),
+    level_note=RECV_SEND_NOTE + " 'The daemon keeps serving other transactions meanwhile' is C11. Transactions the user suspended, or whose limit faults are configured ignore / "
+               "suspend, are exempt as the property says.",
+    rule=("recv + send engines as in C04/C07; one history in three is cut at a random point (blackout of both directions from there on), every history is followed by the drain "
+          "phase. Oracles never_stuck, bounded. Non-trivial = a PDU was emitted or an indication raised."),
+    assumptions=["the runtime wakes the task when the computed sleep is over (tokio timers) and grants the link when asked (bounded channel with a live consumer)"],
+    unproved=["sender: 'a timer is always running while nothing is queued' as an all-history invariant (checked by the drain oracle never_stuck on the real SendTransaction)",
+              "the numeric bound as a theorem (termination measure over NAK queue, counters and phases); checked by the drain oracle bounded"],
 )
